@@ -1,5 +1,11 @@
 """amg_core - a C++ implementation of AMG-related routines."""
 
+# Verification hook (guard: PYAMG_VERIF_CORE_DIR).  When the variable is set, extension
+# modules found in that directory (rebuilt from the working tree) shadow the in-tree binaries.
+import os as _os
+if _os.environ.get('PYAMG_VERIF_CORE_DIR'):
+    __path__.insert(0, _os.environ['PYAMG_VERIF_CORE_DIR'])
+
 from . import (evolution_strength, graph, krylov, linalg, relaxation,
                ruge_stuben, smoothed_aggregation)
 
